@@ -53,3 +53,10 @@ Theorem C19_source_amortized : forall cap used extra, cap * 2 < W ->
   = Ret (vopt (match checked_add used extra with Some r => Some (N.max (cap * 2) r) | None => None end)).
 Proof. exact src_amortized_new_size_ok. Qed.
 Print Assumptions C19_source_amortized.
+
+From BV Require Import VecFacts2.
+(* extend_from_slices_copy: slice lengths that add up to 2^64 or more are refused, never wrapped *)
+Theorem C19_slices_sum_refused : forall e v slices lens,
+  W <= fold_right N.add 0 lens -> extend_slices_copy e v slices lens = VecModel.Panic VecModel.PCapacity.
+Proof. exact extend_slices_overflow_refused. Qed.
+Print Assumptions C19_slices_sum_refused.
